@@ -82,6 +82,9 @@ func vC19Doc(doc int) []byte {
 	case 4: // binary: value spanning a skip, string, second version marker
 		vassume(x <= 0x83 && x >= 0x80)
 		return []byte{0xE0, 0x01, 0x00, 0xEA, x, 'a', 'b', 'c', 0xE0, 0x01, 0x00, 0xEA, 0x21, 0x05}
+	case 6: // CR LF inside a long string and after a line continuation, where folding changes the value
+		vassume(x == '\r' || x == 'a' || x == '\n')
+		return []byte{'\'', '\'', '\'', 'a', x, '\n', 'b', '\\', x, '\n', 'c', '\'', '\'', '\'', ' ', '1'}
 	default: // short inputs around the 4-byte format sniff
 		y := vnondetU8()
 		vassume(x == 0xE0 || x == '1' || x == ' ')
